@@ -622,6 +622,9 @@ impl<TStorage: ?Sized + WritableStorageTraits> Group<TStorage> {
                     storage_handle.set(&key, json.into())?;
 
                     metadata.attributes = serde_json::Map::default();
+                } else {
+                    // No attributes: a previously stored .zattrs must not linger
+                    storage_handle.erase(&meta_key_v2_attributes(path))?;
                 }
 
                 // Store .zarray
@@ -716,6 +719,9 @@ impl<TStorage: ?Sized + AsyncWritableStorageTraits> Group<TStorage> {
                     storage_handle.set(&key, json.into()).await?;
 
                     metadata.attributes = serde_json::Map::default();
+                } else {
+                    // No attributes: a previously stored .zattrs must not linger
+                    storage_handle.erase(&meta_key_v2_attributes(path)).await?;
                 }
 
                 // Store .zarray
